@@ -187,6 +187,10 @@ func (rc *RPCClient) SyncRequest(ctx context.Context, rpcReq *RPCRequest) (rpcRe
 		Post("")
 
 	// Restore the original ID
+	if rpcRes == nil {
+		// a JSON null response body leaves the result pointer nil
+		rpcRes = new(RPCResponse)
+	}
 	rpcRes.ID = rpcReq.ID
 	if err != nil {
 		err := i18n.NewError(ctx, signermsgs.MsgRPCRequestFailed, err)
@@ -210,6 +214,11 @@ func (rc *RPCClient) SyncRequest(ctx context.Context, rpcReq *RPCRequest) (rpcRe
 		}
 		log.L(ctx).Errorf("RPC[%s] <-- [%d]: %s", rpcTraceID, res.StatusCode(), errLog)
 		err := errors.New(rpcMsg)
+		if rpcRes.Error == nil || rpcRes.Error.Code == 0 {
+			// an HTTP error without a JSON-RPC error in its body: build one, so the caller never gets a response
+			// with neither a result nor an error
+			rpcRes = RPCErrorResponse(err, rpcReq.ID, RPCCodeInternalError)
+		}
 		return rpcRes, err
 	}
 	log.L(ctx).Infof("RPC[%s] <-- %s [%d] OK (%.2fms)", rpcTraceID, rpcReq.Method, res.StatusCode(), float64(time.Since(rpcStartTime))/float64(time.Millisecond))
